@@ -15,7 +15,8 @@ type C11Case struct {
 	Cmd  string `json:"cmd"` // MAIL | RCPT
 	Arg  string `json:"arg"` // text after "MAIL FROM:" / "RCPT TO:"
 	Show string `json:"show"`
-	Ext  bool   `json:"ext"` // all extension flags on / off
+	Ext  bool   `json:"ext"`            // all extension flags on / off
+	Verb string `json:"verb,omitempty"` // spelling of "MAIL FROM:" / "RCPT TO:" ("" = upper case); commands are case-insensitive
 }
 
 func c11Ext(on bool) (h.Config, ref.Ext) {
@@ -31,14 +32,18 @@ func evalC11(c C11Case) (*h.Finding, ref.Class) {
 	be := &h.Backend{}
 	var in string
 	nPre := 2
+	verb := c.Verb
+	if verb == "" {
+		verb = map[string]string{"MAIL": "MAIL FROM:", "RCPT": "RCPT TO:"}[c.Cmd]
+	}
 	if c.Cmd == "MAIL" {
-		in = "EHLO c.example\r\nMAIL FROM:" + c.Arg + "\r\n"
+		in = "EHLO c.example\r\n" + verb + c.Arg + "\r\n"
 	} else {
-		in = "EHLO c.example\r\nMAIL FROM:<ok@a.example>\r\nRCPT TO:" + c.Arg + "\r\n"
+		in = "EHLO c.example\r\nMAIL FROM:<ok@a.example>\r\n" + verb + c.Arg + "\r\n"
 		nPre = 3
 	}
 	o := h.RunS(cfg, be, h.OneSeg([]byte(in)), h.TermEOF)
-	desc := fmt.Sprintf("%s argument %q (extensions %s)", c.Cmd, c.Arg, map[bool]string{true: "on", false: "off"}[c.Ext])
+	desc := fmt.Sprintf("%s%s argument %q (extensions %s)", c.Cmd, map[bool]string{true: " spelled " + c.Verb, false: ""}[c.Verb != ""], c.Arg, map[bool]string{true: "on", false: "off"}[c.Ext])
 	if f := o.Sanity("c11", desc); f != nil {
 		return f, ref.Unspecified
 	}
@@ -200,6 +205,16 @@ func C11(tier string) int {
 			if len(ps) <= mutParams {
 				mutate("RCPT", l)
 			}
+		}
+	}
+	// the command words in other spellings (RFC 5321 2.4: command verbs and keywords are case-insensitive)
+	ng := len(cases)
+	for i := 0; i < ng; i += 7 {
+		c := cases[i]
+		for _, v := range map[string][]string{"MAIL": {"mail from:", "Mail From:", "MAIL from:"}, "RCPT": {"rcpt to:", "Rcpt To:", "RCPT to:"}}[c.Cmd] {
+			c2 := c
+			c2.Verb = v
+			cases = append(cases, c2)
 		}
 	}
 	nGrammar := len(cases)
